@@ -164,7 +164,7 @@ class Src:
   def line_of(self, off):
     return self.text.count("\n", 0, off) + 1
 
-  def find_block(self, header_re):
+  def find_block(self, header_re, containing_fn=None):
     """Find `impl ... {` / `mod ... {` whose header matches header_re; return (open, close)."""
     pat = re.compile(r"(?m)^[ \t]*(?:pub(?:\([a-z]+\))?\s+)?(?:unsafe\s+)?" + header_re + r"[^;{]*\{")
     hits = list(pat.finditer(self.mask))
@@ -174,6 +174,14 @@ class Src:
       # prefer those at top level or in non-test code: pick the first one
       pass
     m = hits[0]
+    if containing_fn:
+      # several blocks with the same header (two inherent `impl X {}` blocks): the one that directly contains `fn NAME`
+      for h in hits:
+        op = h.end() - 1
+        cl = match_close(self.mask, op)
+        for fm in re.finditer(r"\bfn\s+" + re.escape(containing_fn) + r"\b", self.mask[op:cl]):
+          if depth_at(self.mask, op, op + fm.start()) == 1:
+            return op, cl
     op = m.end() - 1
     return op, match_close(self.mask, op)
 
@@ -671,7 +679,7 @@ def _clause_lines(gen, clauses, fnname, kind, indent="    ", register=True):
 
 def extract_fn(gen, f, probe=False):
   src = Src.get(f.file)
-  within = src.find_block(f.impl) if f.impl else None
+  within = src.find_block(f.impl, containing_fn=f.name) if f.impl else None
   ls, bo, bc = src.find_fn(f.name, within, f.nth)
   sig = OText.from_source(src.text, ls, bo)
   body = OText.from_source(src.text, bo, bc + 1)
@@ -809,6 +817,37 @@ def extract_fn(gen, f, probe=False):
       ins += _clause_lines(gen, spec["ensures"], qual, "loop_ensures", "        ")
     if spec.get("decreases"):
       ins.append(("\n      decreases %s\n" % spec["decreases"], gen.tag({"kind": "kw", "fn": qual})))
+    if kw == "for" and spec.get("desugar_enum"):
+      # R9e: `for (I, X) in C.iter_mut().enumerate() { B }`  ==>  indexed while loop over the same container; inside B the element
+      #      binding X is spelled C[I] (reads through Index; `C[I].set_flags(e);` is the IndexMut call R6 turns into C.verif_set_flags(I, e)):
+      #      { let vx_nN = C.len(); let mut vx_iN: usize = 0; while vx_iN < vx_nN { let I = vx_iN; vx_iN += 1; B[X := C[I]] } }
+      hdr = body.s[st:brace]
+      m = re.match(r"for\s+\(\s*(\w+)\s*,\s*(\w+)\s*\)\s+in\s+([\w\.]+)\.iter_mut\(\)\.enumerate\(\)\s*$", hdr, re.S)
+      if not m:
+        raise VxError("for-loop #%d header of %s::%s is not `for (i, x) in c.iter_mut().enumerate()`: %r (anchor lost)" % (ordn, f.file, f.name, hdr))
+      iv, xv, cont = m.group(1), m.group(2), m.group(3)
+      gen.drops.append({"rule": "R9e", "at": "%s:%s" % (where, body.o[st]), "what": "for (%s, %s) in %s.iter_mut().enumerate() -> indexed while loop, %s spelled %s[%s] (vx_n%d/vx_i%d)" % (iv, xv, cont, xv, cont, iv, ordn, ordn)})
+      o0 = body.o[st]
+      cl = match_close(mask, brace)
+      # element binding -> indexed access, right to left inside the body
+      for xm in reversed(list(re.finditer(r"(?<![A-Za-z0-9_\.])%s\b" % re.escape(xv), mask[brace + 1:cl]))):
+        a, b = brace + 1 + xm.start(), brace + 1 + xm.end()
+        sm = re.match(r"\.set_flags\(", mask[b:cl])
+        if sm:
+          # `X.set_flags(e)` is a write through the element binding (IndexMut on FrameBatch is outside Verus): R6 spelling
+          add_op(a, b + sm.end(), "%s.verif_set_flags(%s, " % (cont, iv), body.o[a])
+        else:
+          add_op(a, b, "%s[%s]" % (cont, iv), body.o[a])
+      add_op(st, brace, "{ let vx_n%d = %s.len(); let mut vx_i%d: usize = 0;\n while vx_i%d < vx_n%d " % (ordn, cont, ordn, ordn, ordn), o0)
+      ins2 = [("\n      invariant\n        vx_i%d <= vx_n%d, %s@.len() == vx_n%d,\n" % (ordn, ordn, cont, ordn), gen.tag({"kind": "kw", "fn": qual}))]
+      if spec.get("invariant"):
+        ins2 += _clause_lines(gen, spec["invariant"], qual, "invariant", "        ")
+      ins2.append(("\n      decreases vx_n%d - vx_i%d\n" % (ordn, ordn), gen.tag({"kind": "kw", "fn": qual})))
+      for text, t in ins2:
+        add_op(brace, brace, text, t)
+      add_op(brace + 1, brace + 1, " let %s = vx_i%d; vx_i%d += 1;\n" % (iv, ordn, ordn), o0)
+      add_op(cl + 1, cl + 1, " }", o0)
+      continue
     if kw == "for" and spec.get("desugar"):
       # R9: `for PAT in EXPR { B }` over a slice  ==>  indexed while loop (Verus' for-loops reject continue/break);
       #     { let vx_sN = EXPR; let mut vx_iN: usize = 0; while vx_iN < vx_sN.len() { let PAT = &vx_sN[vx_iN]; vx_iN += 1; B } }
@@ -1063,7 +1102,7 @@ def generate(unit, probe=False):
             gen.lemmas.append({"name": nm, "fn": m.group(1), "start": i + 1, "src": part.label})
     elif isinstance(part, Scan):
       src = Src.get(part.file)
-      within = src.find_block(part.impl) if part.impl else None
+      within = src.find_block(part.impl, containing_fn=part.name) if part.impl else None
       ls, bo, bc = src.find_fn(part.name, within, 0)
       n = len([m for m in re.finditer(part.pattern, src.text[bo:bc]) if src.mask[bo + m.start()] == src.text[bo + m.start()]])
       if n != part.expect:
